@@ -9,6 +9,7 @@ property oracle   : reloaded shapes evaluate like the originals (same named-vari
                     sub-trees, transformed (remap/apply) shapes and awkward strings
 """
 import os
+import re
 import sys
 
 sys.path.insert(0, os.path.dirname(os.path.dirname(os.path.abspath(__file__))))
@@ -115,9 +116,23 @@ def run(replay=None):
         if errs:
             ck.violation("exception", "serialise / deserialise raised: " + errs[0], {"program": p.text()})
             continue
+        # fragile constant folds: a shadow build of the model (doubles / one-ulp noise / +0 only) folds a
+        # shape's constants to something else than the main build (cos(exp(6)): 1000 ulps per ulp of exp)
+        msh = [l.split("dump=")[1] for l in mo if l.startswith("S ") and "dump=" in l]
+        fragile = False
+        for l in mo:
+            if l.startswith("DS "):
+                k, dd = l[3:].split(" ", 1)
+                if int(k) < len(msh) and not exprlib.dags_equal_mod_sharing(
+                        re.sub(r"\bv-?\d+\b", "v0", msh[int(k)]), re.sub(r"\bv-?\d+\b", "v0", dd), ulps=64):
+                    fragile = True
+        mo = [l for l in mo if not l.startswith("DS ")]
         if hb and mb and hb[0] == mb[0]:
             stats["bytes_exact"] += 1
             stats["total_bytes"] += (len(hb[0]) - 2) // 2
+        elif fragile:
+            stats["fragile_fold_skipped"] = stats.get("fragile_fold_skipped", 0) + 1
+            continue
         elif hb and mb and len(hb[0]) == len(mb[0]) and [l for l in ho if l.startswith("S ")] and \
                 len(ho) == len(mo) + len([l for l in ho if l.startswith("E ")]) and \
                 all(exprlib.dumps_equal_tol(a.split("dump=")[1], b.split("dump=")[1])
